@@ -315,3 +315,29 @@ func c03DpopFacts(l *lean) {
 	}
 	l.def("signDPoPShape", "List String", c03StrList(sd), sd)
 }
+
+// fs.ListPrivateKeys: the walk callback's condition, the `upper` expression, its guard and the slice that becomes the key name
+func c03FsListFacts(l *lean) {
+	fset, f := parseFile("crypto/storage/fs/fs.go")
+	var facts []string
+	if fd := c03Method(f, "fileSystemBackend", "ListPrivateKeys"); fd != nil {
+		ast.Inspect(fd.Body, func(n ast.Node) bool {
+			switch x := n.(type) {
+			case *ast.CallExpr:
+				if fn := exprString(x.Fun); strings.HasPrefix(fn, "filepath.Walk") && len(x.Args) >= 1 {
+					facts = append(facts, "walk:"+fn+"("+c03Src(fset, x.Args[0])+")")
+				}
+			case *ast.IfStmt:
+				facts = append(facts, "if:"+c03Src(fset, x.Cond))
+			case *ast.AssignStmt:
+				if len(x.Lhs) == 1 && exprString(x.Lhs[0]) == "upper" {
+					facts = append(facts, "upper:"+c03Src(fset, x.Rhs[0]))
+				}
+			case *ast.KeyValueExpr:
+				facts = append(facts, "field:"+exprString(x.Key)+"="+c03Src(fset, x.Value))
+			}
+			return true
+		})
+	}
+	l.def("fsListCallback", "List String", c03StrList(facts), facts)
+}
